@@ -31,6 +31,9 @@ func main() {
 	commands["rot"] = cmdRot
 	commands["api"] = cmdAPI
 	commands["asm"] = cmdAsm
+	commands["fuzz"] = cmdFuzz
+	commands["equgraphs"] = cmdEquGraphs
+	commands["fx"] = cmdFX
 	commands["outs"] = cmdOuts
 	commands["outs-replay"] = cmdOutsReplay
 	commands["forasm"] = cmdForAsm
